@@ -87,3 +87,16 @@ package rawkv
 //@   at call(sendReq) assert cas: arg_key == key && arg_reverse == false && reqArgs.Key == key && reqArgs.Value == newValue && reqArgs.PreviousNotExist == (previousValue == nil) &&
 //@       (previousValue != nil ==> reqArgs.PreviousValue == previousValue) && arg_req != nil && arg_req.Type == tikvrpc.CmdRawCompareAndSwap
 //@   at return assert passed: result2 == nil ==> result1 == cmdResp.Succeed
+
+// One batch of a batch put: the i-th pair of the request is the batch's i-th key with its i-th value, the per-key
+// time-to-live list is passed along as it is (positionally aligned by the batch builder), and the request goes to the
+// batch's region; a region error is paid with a back-off and the batch's keys, values and TTLs are grouped again together.
+//@ func (c *Client) doBatchPut
+//@   prop C11
+//@   bytes: key
+//@   may-panic
+//@   opaque-callee getColumnFamily GetRegionError
+//@   loop 1 invariant pairs: len(kvPair) == rangeindex + 1 && -1 <= rangeindex && rangeindex < len(batch.Keys) && forall j int :: 0 <= j && j < len(kvPair) ==> kvPair[j] != nil && kvPair[j].Key == batch.Keys[j] && kvPair[j].Value == batch.Values[j]
+//@   at call(SendReq) assert request: arg_regionID == batch.RegionID && arg_req != nil && len(arg_req.Req.(*kvrpcpb.RawBatchPutRequest).Pairs) == len(batch.Keys) && arg_req.Req.(*kvrpcpb.RawBatchPutRequest).Ttls == batch.TTLs &&
+//@       forall j int :: 0 <= j && j < len(batch.Keys) ==> arg_req.Req.(*kvrpcpb.RawBatchPutRequest).Pairs[j].Key == batch.Keys[j] && arg_req.Req.(*kvrpcpb.RawBatchPutRequest).Pairs[j].Value == batch.Values[j]
+//@   at call(sendBatchPut) assert again: arg_keys == batch.Keys && arg_values == batch.Values && arg_ttls == batch.TTLs
